@@ -10,7 +10,7 @@ Definition FUEL : nat := 120.
 Fixpoint value_eqb (a b : value) {struct a} : bool :=
   match a, b with
   | VInt x, VInt y => Z.eqb x y
-  | VNil, VNil | VT, VT => true
+  | VNil, VNil | VT, VT | VUnbound, VUnbound => true
   | VSym x, VSym y => String.eqb x y
   | VList xs, VList ys | VVals xs, VVals ys =>
       (fix eql (xs ys : list value) {struct xs} : bool :=
